@@ -82,7 +82,11 @@ Mismatch(S, e, c, o) ==
       ep  == IF fail THEN "C05" ELSE EffectProp(e.op)
   IN
   (IF ok THEN {} ELSE {IF RemovedArg(S, e) THEN "C12:result" ELSE "C05:result", "C05:result"}
-                       \cup (IF o.res = {"Ok"} THEN {EffectProp(e.op) \o ":valid-call-failed"} ELSE {})) \cup
+                       \cup (IF o.res = {"Ok"} THEN {EffectProp(e.op) \o ":valid-call-failed"} ELSE {})
+                       \* a call that ended in a panic / an error must not have taken the payload of a node that is still
+                       \* reported live afterwards ("a live node keeps its payload", whatever else went wrong)
+                       \cup (IF fail /\ \E s \in 1..MinN(S.count, e.count) : s \in S.live /\ s \in Rng(e.live) /\ e.val[s] # S.val[s]
+                              THEN {"C08:payload-lost-in-failed-call"} ELSE {})) \cup
   (IF ~ok THEN {} ELSE
      (IF e.count = T.count THEN {} ELSE {(IF e.op \in {"new", "append_value"} THEN "C07" ELSE ep) \o ":count"}) \cup
      (IF Rng(e.live) = T.live THEN {} ELSE {(IF e.op \in {"new", "append_value"} THEN "C07" ELSE ep) \o ":live"}) \cup
